@@ -215,7 +215,7 @@ func terminatorOnce(c *core.Ctx) {
 		n := 0
 		for _, fd := range p.AllFuncDecls(p.Connect) {
 			for _, call := range astx.CallsDeep(fd.Body) {
-				if f := astx.CalleeFunc(info, call); f != nil && f.Name() == spec.callee {
+				if isMethodNamed(info, call, spec.callee) {
 					n++
 					c.Check(core.FuncName(fd) == spec.allowed, "who-may-call/"+spec.callee+"@"+core.FuncName(fd), call.Pos(), "%s is called from %s (only %s may terminate the response)", spec.callee, core.FuncName(fd), spec.allowed)
 				}
